@@ -1,5 +1,8 @@
 //! C17: BufferedMsgRelay over a scripted mock relay vs. the Lean model (Model/Buffered.lean).
 //! Futures are polled by hand with a no-op waker and dropped at scripted points (cancellation).
+//! The mock scripts BOTH sides of the inner relay: the incoming Stream (frames / Pending / end) and the Sink
+//! (`poll_ready` / `poll_flush`: Ready(Ok) / Pending / Ready(Err), one script entry per call; `start_send`: Ok / Err).
+//! An exhausted sink script is Ready(Ok) for ever, so a case without sink scripts is the always-ready sink.
 use crate::{c15::{ask_frame, pub_frame}, driver::Driver, report::{Failure, Report}, rng::case_rng, Opts};
 use futures_util::{task::noop_waker, Sink, Stream, StreamExt};
 use rand::Rng;
@@ -13,10 +16,26 @@ use std::task::{Context, Poll};
 
 #[derive(Clone, Debug)]
 pub enum Ev { Msg(Vec<u8>), Pending, Closed }
+#[derive(Clone, Copy, Debug, PartialEq, Eq)]
+pub enum SinkEv { Ok, Pending, Err }
 #[derive(Clone, Debug)]
 pub enum Call { Recv(Vec<u8>, u32, usize), WaitFor(Vec<Vec<u8>>, usize), Next }
 
-pub struct Mock { script: VecDeque<Ev>, asks: Vec<(Vec<u8>, u64)> }
+pub struct Mock {
+    script: VecDeque<Ev>, asks: Vec<(Vec<u8>, u64)>,
+    /// results of the coming poll_ready / poll_flush calls, in call order; exhausted = Ready(Ok)
+    sink: VecDeque<SinkEv>,
+    /// results of the coming start_send calls (true = Ok); exhausted = Ok
+    sends: VecDeque<bool>,
+    /// number of poll_ready + poll_flush calls seen (scripted or not)
+    sink_calls: usize,
+}
+impl Mock {
+    fn sink_poll(&mut self) -> Poll<Result<(), MessageSendError>> {
+        self.sink_calls += 1;
+        match self.sink.pop_front() { None | Some(SinkEv::Ok) => Poll::Ready(Ok(())), Some(SinkEv::Pending) => Poll::Pending, Some(SinkEv::Err) => Poll::Ready(Err(MessageSendError)) }
+    }
+}
 impl Stream for Mock {
     type Item = Vec<u8>;
     fn poll_next(mut self: Pin<&mut Self>, _cx: &mut Context<'_>) -> Poll<Option<Vec<u8>>> {
@@ -25,12 +44,13 @@ impl Stream for Mock {
 }
 impl Sink<Vec<u8>> for Mock {
     type Error = MessageSendError;
-    fn poll_ready(self: Pin<&mut Self>, _: &mut Context<'_>) -> Poll<Result<(), Self::Error>> { Poll::Ready(Ok(())) }
+    fn poll_ready(mut self: Pin<&mut Self>, _: &mut Context<'_>) -> Poll<Result<(), Self::Error>> { self.sink_poll() }
     fn start_send(mut self: Pin<&mut Self>, item: Vec<u8>) -> Result<(), Self::Error> {
+        if self.sends.pop_front() == Some(false) { return Err(MessageSendError); }
         if let Ok(h) = <&MsgHdr>::try_from(item.as_slice()) { let e = (h.id().as_slice().to_vec(), h.ttl().as_secs()); self.asks.push(e); }
         Ok(())
     }
-    fn poll_flush(self: Pin<&mut Self>, _: &mut Context<'_>) -> Poll<Result<(), Self::Error>> { Poll::Ready(Ok(())) }
+    fn poll_flush(mut self: Pin<&mut Self>, _: &mut Context<'_>) -> Poll<Result<(), Self::Error>> { self.sink_poll() }
     fn poll_close(self: Pin<&mut Self>, _: &mut Context<'_>) -> Poll<Result<(), Self::Error>> { Poll::Ready(Ok(())) }
 }
 impl Relay for Mock {}
@@ -38,11 +58,15 @@ impl Relay for Mock {}
 fn hexw(b: &[u8]) -> String { if b.is_empty() { "-".into() } else { hex::encode(b) } }
 fn dash(v: Vec<String>, sep: &str) -> String { if v.is_empty() { "-".into() } else { v.join(sep) } }
 fn ev_str(e: &Ev) -> String { match e { Ev::Msg(m) => format!("m:{}", hexw(m)), Ev::Pending => "p".into(), Ev::Closed => "c".into() } }
+fn sink_str(e: &SinkEv) -> String { match e { SinkEv::Ok => "k", SinkEv::Pending => "p", SinkEv::Err => "e" }.into() }
+fn send_str(b: &bool) -> String { if *b { "k" } else { "e" }.into() }
 fn call_str(c: &Call) -> String {
     match c { Call::Next => "n".into(), Call::Recv(id, ttl, k) => format!("r:{}:{ttl}:{k}", hexw(id)),
         Call::WaitFor(ids, k) => format!("w:{}:{k}", dash(ids.iter().map(|i| hexw(i)).collect(), "+")) }
 }
 fn parse_ev(s: &str) -> Option<Ev> { match s { "p" => Some(Ev::Pending), "c" => Some(Ev::Closed), _ => { let h = s.strip_prefix("m:")?; Some(Ev::Msg(if h == "-" { vec![] } else { hex::decode(h).ok()? })) } } }
+fn parse_sink(s: &str) -> Option<SinkEv> { match s { "k" => Some(SinkEv::Ok), "p" => Some(SinkEv::Pending), "e" => Some(SinkEv::Err), _ => None } }
+fn parse_send(s: &str) -> Option<bool> { match s { "k" => Some(true), "e" => Some(false), _ => None } }
 fn parse_call(s: &str) -> Option<Call> {
     let t: Vec<&str> = s.split(':').collect();
     match t.as_slice() { ["n"] => Some(Call::Next), ["r", id, ttl, k] => Some(Call::Recv(hex::decode(id).ok()?, ttl.parse().ok()?, k.parse().ok()?)),
@@ -56,74 +80,127 @@ fn poll_n<F: Future<Output = Option<Vec<u8>>>>(fut: F, polls: usize) -> String {
     "cancel".into()   // dropped here while pending
 }
 
-fn run_impl(script: &[Ev], calls: &[Call]) -> (Vec<String>, Vec<Vec<u8>>, usize, Vec<(Vec<u8>, u64)>) {
+/// what the implementation did: per call the outcome and, AFTER that call, the frames listed by `buffered()`, the number of
+/// stream-script events not yet read and the number of sink-script entries not yet consumed
+struct Obs { outs: Vec<String>, bufs: Vec<Vec<Vec<u8>>>, lefts: Vec<usize>, sink_lefts: Vec<usize>, sends_left: usize, asks: Vec<(Vec<u8>, u64)>, sink_calls: usize }
+
+fn run_impl(script: &[Ev], calls: &[Call], sink: &[SinkEv], sends: &[bool]) -> Obs {
     // `with_capacity(relay, n)` is a pre-allocation hint, not a bound: both constructors must behave identically.
     // The constructor is chosen from the case itself (deterministic, replayable): capacity 0, 1, 2 or `new`.
-    let mock = Mock { script: script.iter().cloned().collect(), asks: vec![] };
+    let mock = Mock { script: script.iter().cloned().collect(), asks: vec![], sink: sink.iter().cloned().collect(), sends: sends.iter().cloned().collect(), sink_calls: 0 };
     let mut b = match (script.len() + 3 * calls.len()) % 4 { 0 => BufferedMsgRelay::new(mock), k => BufferedMsgRelay::with_capacity(mock, k - 1) };
-    let mut outs = vec![];
+    let mut o = Obs { outs: vec![], bufs: vec![], lefts: vec![], sink_lefts: vec![], sends_left: 0, asks: vec![], sink_calls: 0 };
     for c in calls {
-        outs.push(match c {
+        o.outs.push(match c {
             Call::Recv(id, ttl, k) => { let mut a = [0u8; 32]; a.copy_from_slice(id); let id = MsgId::from(a); poll_n(b.recv(&id, *ttl), *k) }
             Call::WaitFor(ids, k) => { let ids = ids.clone(); poll_n(b.wait_for(move |i| ids.iter().any(|x| x.as_slice() == i.as_slice())), *k) }
             Call::Next => { let waker = noop_waker(); let mut cx = Context::from_waker(&waker);
                 match b.poll_next_unpin(&mut cx) { Poll::Ready(Some(m)) => format!("g:{}", hexw(&m)), Poll::Ready(None) => "none".into(), Poll::Pending => "cancel".into() } }
         });
+        o.bufs.push(BufferedMsgRelay::buffered(&b).map(|m| m.to_vec()).collect());
+        o.lefts.push(b.script.len());
+        o.sink_lefts.push(b.sink.len());
     }
-    let buf: Vec<Vec<u8>> = BufferedMsgRelay::buffered(&b).map(|m| m.to_vec()).collect();
-    let left = b.script.len();
-    let asks = b.asks.clone();
-    (outs, buf, left, asks)
+    if calls.is_empty() { o.bufs.push(vec![]); o.lefts.push(script.len()); o.sink_lefts.push(sink.len()); }
+    o.sends_left = b.sends.len();
+    o.asks = b.asks.clone();
+    o.sink_calls = b.sink_calls;
+    o
 }
 
-fn one(drv: &mut Driver, rep: &mut Report, stream: &str, script: &[Ev], calls: &[Call]) {
-    let req = format!("buf run {} {}", dash(script.iter().map(ev_str).collect(), ","), dash(calls.iter().map(call_str).collect(), ","));
-    let idx = rep.case(stream, if script.len() >= 2 && calls.len() >= 2 { Some(&req) } else { None });
-    let (outs, buf, left, asks) = run_impl(script, calls);
-    let got = format!("{};{};{};{}", dash(outs.clone(), ","), dash(buf.iter().map(|m| hexw(m)).collect(), "+"), left, dash(asks.iter().map(|(i, t)| format!("{}:{t}", hexw(i))).collect(), "+"));
-    let model = drv.ask(&req);
-    // ---- conclusion predicate on the implementation's own behaviour
-    let consumed: Vec<&Vec<u8>> = script[..script.len() - left].iter().filter_map(|e| if let Ev::Msg(m) = e { Some(m) } else { None }).collect();
-    let mut pool: Vec<Vec<u8>> = consumed.iter().map(|m| (*m).clone()).collect();
-    let mut bad: Option<String> = None;
-    let mut take = |m: &Vec<u8>, what: &str, pool: &mut Vec<Vec<u8>>, bad: &mut Option<String>| match pool.iter().position(|x| x == m) { Some(p) => { pool.swap_remove(p); } None => { bad.get_or_insert(format!("{what} {} was not produced by the relay (or produced fewer times): duplicated or invented", hexw(m))); } };
-    for (c, o) in calls.iter().zip(outs.iter()) {
-        if let Some(h) = o.strip_prefix("g:") {
-            let m = if h == "-" { vec![] } else { hex::decode(h).unwrap() };
-            take(&m, "delivered frame", &mut pool, &mut bad);
-            match c {
-                Call::Recv(id, _, _) => if m.len() < MESSAGE_HEADER_SIZE || &m[..32] != id.as_slice() { bad.get_or_insert(format!("recv for id {} returned a frame carrying another id: {}", hexw(id), hexw(&m))); }
-                Call::WaitFor(ids, _) => if m.len() < MESSAGE_HEADER_SIZE || !ids.iter().any(|i| &m[..32] == i.as_slice()) { bad.get_or_insert(format!("wait_for returned a frame not matching the predicate: {}", hexw(&m))); }
-                Call::Next => {}
+/// CONCLUSION PREDICATE on the implementation's own observations, evaluated after EVERY call t:
+///   frames read from the relay so far  ==  frames delivered so far + frames listed by buffered() now + malformed frames
+/// as multisets (nothing lost, nothing duplicated or invented), and a targeted receive / predicate wait returned only a
+/// frame carrying a requested id.  Returns (index of the first call after which it fails, description).
+fn judge(script: &[Ev], calls: &[Call], o: &Obs) -> Option<(usize, String)> {
+    for t in 0..o.bufs.len() {
+        let mut pool: Vec<Vec<u8>> = script[..script.len() - o.lefts[t]].iter().filter_map(|e| if let Ev::Msg(m) = e { Some(m.clone()) } else { None }).collect();
+        let mut bad: Option<String> = None;
+        let take = |m: &Vec<u8>, what: &str, pool: &mut Vec<Vec<u8>>, bad: &mut Option<String>| match pool.iter().position(|x| x == m) { Some(p) => { pool.swap_remove(p); } None => { bad.get_or_insert(format!("{what} {} was not produced by the relay (or produced fewer times): duplicated or invented", hexw(m))); } };
+        for (c, out) in calls.iter().zip(o.outs.iter()).take(t + 1) {
+            if let Some(h) = out.strip_prefix("g:") {
+                let m = if h == "-" { vec![] } else { hex::decode(h).unwrap() };
+                take(&m, "delivered frame", &mut pool, &mut bad);
+                match c {
+                    Call::Recv(id, _, _) => if m.len() < MESSAGE_HEADER_SIZE || &m[..32] != id.as_slice() { bad.get_or_insert(format!("recv for id {} returned a frame carrying another id: {}", hexw(id), hexw(&m))); }
+                    Call::WaitFor(ids, _) => if m.len() < MESSAGE_HEADER_SIZE || !ids.iter().any(|i| &m[..32] == i.as_slice()) { bad.get_or_insert(format!("wait_for returned a frame not matching the predicate: {}", hexw(&m))); }
+                    Call::Next => {}
+                }
             }
         }
+        for m in &o.bufs[t] { take(m, "buffered frame", &mut pool, &mut bad); }
+        if let Some(m) = pool.iter().find(|m| m.len() >= MESSAGE_HEADER_SIZE) { bad.get_or_insert(format!("well-formed frame {} was read from the relay (or parked) but is neither delivered nor listed as buffered: lost", hexw(m))); }
+        if let Some(b) = bad { return Some((t, format!("after call #{t} ({} -> {}): {b}", calls.get(t).map(call_str).unwrap_or_default(), o.outs.get(t).cloned().unwrap_or_default()))); }
     }
-    for m in &buf { take(m, "buffered frame", &mut pool, &mut bad); }
-    if let Some(m) = pool.iter().find(|m| m.len() >= MESSAGE_HEADER_SIZE) { bad.get_or_insert(format!("well-formed frame {} was pulled from the relay but neither delivered nor buffered: lost", hexw(m))); }
-    rep.hist(&format!("outcomes:{}", if outs.iter().any(|o| o == "cancel") { "with-cancel" } else { "no-cancel" }));
-    if !pool.is_empty() { rep.hist("dropped-malformed"); }
+    None
+}
+
+fn request(script: &[Ev], calls: &[Call], sink: &[SinkEv], sends: &[bool]) -> String {
+    let base = format!("buf run {} {}", dash(script.iter().map(ev_str).collect(), ","), dash(calls.iter().map(call_str).collect(), ","));
+    // the always-ready sink keeps the 4-token form (older replay files stay valid)
+    if sink.is_empty() && sends.is_empty() { base } else { format!("{base} {} {}", dash(sink.iter().map(sink_str).collect(), ","), dash(sends.iter().map(send_str).collect(), ",")) }
+}
+
+fn one(drv: &mut Driver, rep: &mut Report, stream: &str, script: &[Ev], calls: &[Call], sink: &[SinkEv], sends: &[bool]) -> usize {
+    let req = request(script, calls, sink, sends);
+    let idx = rep.case(stream, if script.len() >= 2 && calls.len() >= 2 { Some(&req) } else { None });
+    let o = run_impl(script, calls, sink, sends);
+    let last = o.bufs.len() - 1;
+    let mut got = format!("{};{};{};{}", dash(o.outs.clone(), ","), dash(o.bufs[last].iter().map(|m| hexw(m)).collect(), "+"), o.lefts[last], dash(o.asks.iter().map(|(i, t)| format!("{}:{t}", hexw(i))).collect(), "+"));
+    if !(sink.is_empty() && sends.is_empty()) { got.push_str(&format!(";{};{}", o.sink_lefts[last], o.sends_left)); }
+    let model = drv.ask(&req);
+    // ---- conclusion predicate on the implementation's own behaviour
+    let verdict = judge(script, calls, &o);
+    rep.hist(&format!("outcomes:{}", if o.outs.iter().any(|x| x == "cancel") { "with-cancel" } else { "no-cancel" }));
+    rep.hist(&format!("sink:{}", if sink.is_empty() && sends.is_empty() { "always-ready" } else if sink.contains(&SinkEv::Err) || sends.contains(&false) { "with-error" } else if sink.contains(&SinkEv::Pending) { "with-pending" } else { "scripted-ok" }));
+    {
+        let all: Vec<&Vec<u8>> = script[..script.len() - o.lefts[last]].iter().filter_map(|e| if let Ev::Msg(m) = e { Some(m) } else { None }).collect();
+        if all.iter().any(|m| m.len() < MESSAGE_HEADER_SIZE) { rep.hist("dropped-or-passed-malformed"); }
+    }
     if idx == 0 { rep.sample(json!({"stream": stream, "request": req, "impl": got, "model": model})); }
-    if let Some(b) = bad {
-        rep.pred_fail(Failure { stream: stream.into(), index: idx, request: vec![req.clone()], impl_out: got.clone(), model_out: b, key: "buffered:conservation".into(),
-            what: "a message was lost, duplicated or misrouted by BufferedMsgRelay".into() });
+    if let Some((t, b)) = verdict {
+        // does the failure need a sink that is not ready / fails?  Re-run the same arrival order and calls over the always-ready
+        // sink: if the balance breaks there too the class is the plain one, otherwise it is specific to the sink side.
+        let sinky = !(sink.is_empty() && sends.is_empty()) && judge(script, calls, &run_impl(script, calls, &[], &[])).is_none();
+        let _ = t;
+        rep.pred_fail(Failure { stream: stream.into(), index: idx, request: vec![req.clone()], impl_out: got.clone(), model_out: b,
+            key: if sinky { "buffered:conservation-sink".into() } else { "buffered:conservation".into() },
+            what: if sinky { "a message was lost, duplicated or misrouted by BufferedMsgRelay only when the inner relay's sink is not ready or fails (the same arrival order and calls over an always-ready sink are fine)".into() } else { "a message was lost, duplicated or misrouted by BufferedMsgRelay".into() } });
     }
     if got != model {
         rep.diverge(Failure { stream: stream.into(), index: idx, request: vec![req], impl_out: got, model_out: model, key: "buffered:model".into(), what: "Lean model Buffered.runCalls and BufferedMsgRelay disagree".into() });
     }
+    o.sink_calls
 }
 
 pub fn replay(drv: &mut Driver, rep: &mut Report, lines: &[String]) {
     for l in lines {
         let t: Vec<&str> = l.split(' ').collect();
-        if t.len() == 4 && t[0] == "buf" {
+        if (t.len() == 4 || t.len() == 6) && t[0] == "buf" && t[1] == "run" {
             let script: Vec<Ev> = if t[2] == "-" { vec![] } else { t[2].split(',').filter_map(parse_ev).collect() };
             let calls: Vec<Call> = t[3].split(',').filter_map(parse_call).collect();
-            one(drv, rep, "replay", &script, &calls);
+            let (sink, sends): (Vec<SinkEv>, Vec<bool>) = if t.len() == 6 {
+                (if t[4] == "-" { vec![] } else { t[4].split(',').filter_map(parse_sink).collect() }, if t[5] == "-" { vec![] } else { t[5].split(',').filter_map(parse_send).collect() })
+            } else { (vec![], vec![]) };
+            one(drv, rep, "replay", &script, &calls, &sink, &sends);
         }
     }
 }
 
 fn idb(k: u8) -> Vec<u8> { ask_frame(k, 0)[..32].to_vec() }
+
+/// all words over `alphabet` of length <= maxlen, shortest first
+fn words<T: Clone>(alphabet: &[T], maxlen: usize) -> Vec<Vec<T>> {
+    let mut out: Vec<Vec<T>> = vec![vec![]];
+    let mut level: Vec<Vec<T>> = vec![vec![]];
+    for _ in 0..maxlen {
+        let mut next = vec![];
+        for w in &level { for a in alphabet { let mut v = w.clone(); v.push(a.clone()); next.push(v); } }
+        out.extend(next.iter().cloned());
+        level = next;
+    }
+    out
+}
 
 pub fn run(o: &Opts, drv: &mut Driver, rep: &mut Report) {
     let thorough = o.tier == "thorough";
@@ -140,15 +217,71 @@ pub fn run(o: &Opts, drv: &mut Driver, rep: &mut Report) {
         let mut idx = vec![0usize; len];
         loop {
             let script: Vec<Ev> = idx.iter().map(|&i| evs[i].clone()).collect();
-            for cs in &call_sets { one(drv, rep, &format!("exhaustive-scripts-len{len}"), &script, cs); }
+            for cs in &call_sets { one(drv, rep, &format!("exhaustive-scripts-len{len}"), &script, cs, &[], &[]); }
             let mut k = 0;
             while k < len { idx[k] += 1; if idx[k] < evs.len() { break; } idx[k] = 0; k += 1; }
             if k == len { break; }
         }
     }
-    rep.exhaustive.push(format!("all scripts of length <= {maxlen} over 6 events (3 ids, duplicate id with another payload, malformed frame, Pending) x 3 fixed call sequences with cancellation points"));
+    rep.exhaustive.push(format!("all scripts of length <= {maxlen} over 6 events (3 ids, duplicate id with another payload, malformed frame, Pending) x 3 fixed call sequences with cancellation points (always-ready sink)"));
+
+    // ---- exhaustive on the SINK side: every script of poll_ready/poll_flush results up to length N over {Ok, Pending, Err} x every
+    // script of start_send results up to length 2 over {Ok, Err}, against arrival orders in which a frame is parked while another id
+    // is awaited, and call sequences in which each receive is first polled once (dropped at whatever await it is suspended in: the
+    // feed's poll_ready, the flush, or the pull) and then reissued.
+    let (a, a2, b, c) = (pub_frame(0, 1, 1), pub_frame(0, 1, 2), pub_frame(1, 1, 1), pub_frame(2, 1, 1));
+    let arrivals: Vec<Vec<Ev>> = vec![
+        vec![Ev::Msg(b.clone()), Ev::Msg(a.clone())],
+        vec![Ev::Msg(c.clone()), Ev::Msg(b.clone()), Ev::Msg(b.clone()), Ev::Msg(a.clone())],
+        vec![Ev::Msg(b.clone()), Ev::Pending, Ev::Msg(a.clone()), Ev::Msg(a2.clone())],
+        vec![Ev::Msg(b.clone()), Ev::Msg(vec![7, 7]), Ev::Msg(c.clone()), Ev::Msg(a.clone()), Ev::Closed],
+        vec![],
+    ];
+    let sink_calls_sets: Vec<Vec<Call>> = vec![
+        vec![Call::Recv(idb(0), 5, 1), Call::Recv(idb(1), 5, 1), Call::Recv(idb(1), 5, 1), Call::Next, Call::Next],
+        vec![Call::Recv(idb(0), 5, 2), Call::WaitFor(vec![idb(1)], 1), Call::WaitFor(vec![idb(1)], 2), Call::Recv(idb(2), 1, 1), Call::Recv(idb(2), 1, 3), Call::Next],
+        vec![Call::WaitFor(vec![idb(0)], 1), Call::WaitFor(vec![idb(0)], 1), Call::WaitFor(vec![idb(0), idb(2)], 3), Call::Recv(idb(1), 0, 1), Call::Recv(idb(1), 0, 2), Call::WaitFor(vec![idb(2), idb(1)], 2), Call::Next],
+    ];
+    let sink_max = if thorough { 6 } else { 4 };
+    let sink_words = words(&[SinkEv::Ok, SinkEv::Pending, SinkEv::Err], sink_max);
+    let send_words = words(&[true, false], 2);
+    for sw in &sink_words {
+        for sd in &send_words {
+            if sw.is_empty() && sd.is_empty() { continue; }
+            for ar in &arrivals { for cs in &sink_calls_sets { one(drv, rep, &format!("exhaustive-sink-len{}", sw.len()), ar, cs, sw, sd); } }
+        }
+    }
+    rep.exhaustive.push(format!("all sink scripts (poll_ready/poll_flush results) of length <= {sink_max} over {{Ready(Ok), Pending, Ready(Err)}} x all start_send scripts of length <= 2 over {{Ok, Err}} x 5 arrival orders that park a frame x 3 call sequences that poll once, drop and reissue"));
+
+    // ---- structured: a random base case (each receive possibly issued twice: polled once and dropped, then reissued), run once with
+    // the always-ready sink to count its poll_ready/poll_flush calls N; then ONE fault (Pending, Err, Pending-Pending, Pending-Err)
+    // at every position 0..=N of the sink script, everything before it Ready(Ok); likewise one start_send error at every position.
+    let nbase = (if thorough { 1500 } else { 60 }) * o.scale;
+    for _ in 0..nbase {
+        let sl = rng.gen_range(1..9);
+        let script: Vec<Ev> = (0..sl).map(|_| match rng.gen_range(0..20) {
+            0..=13 => Ev::Msg(pub_frame(rng.gen_range(0..3), 1, rng.gen_range(1..3))), 14..=16 => Ev::Pending, 17 => Ev::Closed, 18 => Ev::Msg(vec![9; rng.gen_range(0..36)]), _ => Ev::Msg(pub_frame(3, 1, 1)) }).collect();
+        let mut calls: Vec<Call> = vec![];
+        for _ in 0..rng.gen_range(1..6) {
+            match rng.gen_range(0..10) {
+                0..=5 => { let (id, ttl, k) = (idb(rng.gen_range(0..4)), rng.gen_range(0..3), rng.gen_range(1..4)); if rng.gen_bool(0.6) { calls.push(Call::Recv(id.clone(), ttl, 1)); } calls.push(Call::Recv(id, ttl, k)); }
+                6..=8 => { let ids: Vec<Vec<u8>> = (0..rng.gen_range(1..3)).map(|_| idb(rng.gen_range(0..4))).collect(); let k = rng.gen_range(1..4); if rng.gen_bool(0.6) { calls.push(Call::WaitFor(ids.clone(), 1)); } calls.push(Call::WaitFor(ids, k)); }
+                _ => calls.push(Call::Next),
+            }
+        }
+        let n = one(drv, rep, "structured-sink-base", &script, &calls, &[], &[]).min(if thorough { 16 } else { 10 });
+        for pos in 0..=n {
+            for fault in [vec![SinkEv::Pending], vec![SinkEv::Err], vec![SinkEv::Pending, SinkEv::Pending], vec![SinkEv::Pending, SinkEv::Err]] {
+                let mut sink = vec![SinkEv::Ok; pos]; sink.extend(fault);
+                one(drv, rep, "structured-sink-fault", &script, &calls, &sink, &[]);
+            }
+        }
+        let nrecv = calls.iter().filter(|c| matches!(c, Call::Recv(..))).count();
+        for pos in 0..nrecv { let mut sends = vec![true; pos]; sends.push(false); one(drv, rep, "structured-send-fault", &script, &calls, &[], &sends); }
+    }
+
     let n = (if thorough { 60000 } else { 2500 }) * o.scale;
-    for _ in 0..n {
+    for i in 0..n {
         let sl = rng.gen_range(0..14);
         let script: Vec<Ev> = (0..sl).map(|_| match rng.gen_range(0..20) {
             0..=11 => Ev::Msg(pub_frame(rng.gen_range(0..3), 1, rng.gen_range(1..4))), 12..=15 => Ev::Pending, 16 => Ev::Closed,
@@ -158,6 +291,10 @@ pub fn run(o: &Opts, drv: &mut Driver, rep: &mut Report) {
             0..=4 => Call::Recv(idb(rng.gen_range(0..4)), rng.gen_range(0..3), rng.gen_range(0..5)),
             5..=7 => Call::WaitFor((0..rng.gen_range(0..3)).map(|_| idb(rng.gen_range(0..4))).collect(), rng.gen_range(0..5)),
             _ => Call::Next }).collect();
-        one(drv, rep, "random", &script, &calls);
+        // every other case also gets random sink-side scripts: mostly Ready(Ok), with Pending and Err anywhere (also first)
+        let (sink, sends): (Vec<SinkEv>, Vec<bool>) = if i % 2 == 0 { (vec![], vec![]) } else {
+            ((0..rng.gen_range(0..16)).map(|_| match rng.gen_range(0..10) { 0..=5 => SinkEv::Ok, 6..=8 => SinkEv::Pending, _ => SinkEv::Err }).collect(),
+             (0..rng.gen_range(0..5)).map(|_| rng.gen_range(0..5) != 0).collect()) };
+        one(drv, rep, "random", &script, &calls, &sink, &sends);
     }
 }
